@@ -6,7 +6,8 @@ import (
 )
 
 // Token is one step of a schedule exported from a TLC behaviour of Helm.tla:
-// "b" process p begins its operation, "c" p performs its next visible call, "e" p returns.
+// "b" process p begins its operation, "c" p performs its next visible call, "e" p returns;
+// "r" (preemption sweeps) p runs on alone until it has returned.
 type Token struct {
 	K string `json:"k"`
 	P int    `json:"p"`
@@ -135,6 +136,29 @@ func (e *Env) RunConcurrent(sc Scenario, first int) {
 			}(t.P, st)
 			if sch.waitArrival(parked, t.P) == "" {
 				abort()
+			}
+		case "r": // let process p run on alone until it has returned
+			for !sch.isFree() {
+				got := sch.waitArrival(parked, t.P)
+				if got == "" {
+					abort()
+					break
+				}
+				parked[t.P] = parked[t.P][1:]
+				sch.grant[t.P] <- struct{}{}
+				if got == "end" {
+					select {
+					case <-finished:
+					case <-time.After(10 * time.Second):
+						abort()
+					}
+					break
+				}
+				select {
+				case <-sch.done:
+				case <-time.After(10 * time.Second):
+					abort()
+				}
 			}
 		case "c", "e":
 			want := "call"
